@@ -240,7 +240,8 @@ def cases(draw):
         if draw(st.booleans()):
             o["origin"] = "https://ignored.example"
     if draw(st.integers(0, 3)) == 0:
-        o["subprotocols"] = draw(st.sampled_from([["a"], ["chat", "v2.x"], ["mqtt", "wamp.2.json", "x"]]))
+        o["subprotocols"] = draw(st.one_of(st.sampled_from([["a"], ["chat", "v2.x"], ["mqtt", "wamp.2.json", "x"], ["v2.stomp", "v1.stomp"], ["z", "a", "m"]]),
+                                           st.lists(st.sampled_from(["chat", "superchat", "v1.stomp", "v2.stomp", "mqtt", "A", "b", "soap"]), min_size=1, max_size=4, unique=True)))  # order = the caller's preference
     if draw(st.integers(0, 3)) == 0:
         o["cookie"] = draw(st.sampled_from(["sid=abc", "sid=abc; t=1", "k=\"quoted value\"", "big=" + "c" * 20000, "t=" + "0123456789abcdef" * 1100]))
     m = draw(st.integers(0, 5))
